@@ -9,8 +9,7 @@ LEVEL_TEXT = ("Static analysis of the type-checked MIR of /repo: the function th
               "the sender's admission test and the receiver's size test are present, conditional, and construct the "
               "prescribed errors; a zero limit disables writer/reader creation. Necessary structural conditions.")
 NOT_DECIDED = ["ordering among arriving datagrams and payload equality (values)",
-               "that the sender's admission size (1 + len) and the receiver's measured size (encoding_size + len) agree at the "
-               "boundary (noted, not decided)", "congestion/open-connection preconditions of 'actually put on the wire'"]
+"congestion/open-connection preconditions of 'actually put on the wire'"]
 
 OUT = "qdatagram::writer::DatagramOutgoing::try_load_data_into"
 
@@ -20,6 +19,8 @@ def run(ctx):
     ctx.rule("R1", "queued datagrams are offered to packet assembly: DatagramOutgoing::try_load_data_into is reachable from a qconnection body")
     ctx.rule("R2", "one frame per datagram: each path pops exactly one queue element and dumps exactly one (DatagramFrame, Bytes)")
     ctx.rule("R3", "sender admission: send_bytes rejects data larger than the peer's max_datagram_frame_size before queuing")
+    ctx.rule("R5", "sender/loader agreement: the loader adds the length field only when the frame still fits the peer's "
+                   "max_datagram_frame_size (or admission already bounds the longest encoding)")
     ctx.rule("R4", "receiver: a datagram larger than the local maximum gives PROTOCOL_VIOLATION before it is queued; a zero limit disables reader/writer")
 
     # ---------------------------------------------------------------- R1
@@ -109,5 +110,40 @@ def run(ctx):
             zero = any(rv[0] == "bin" and rv[1] == "Eq" and const_int(rv[3]) == 0 for (i, j, p, rv, line) in b.assigns())
             errs = call_blocks(b, r"std::io::error::Error::new$")
             ctx.ob("R4", "%s|zero limit disables it" % b.short, zero and bool(errs), b.where(), "`== 0` test: %s, error exit: %s" % (zero, bool(errs)))
+    # ---------------------------------------------------------------- R5
+    lb = prog.by_short.get(OUT, [None])[0]
+    if sb and lb:
+        # (A) does admission measure an encoded size (frame.encoding_size() + len) rather than the shortest form?
+        adm = []
+        for (i, j, rv, line) in [(i, j, rv, line) for (i, j, p, rv, line) in sb.assigns() if rv[0] == "bin" and rv[1] in ("Gt", "Ge", "Lt", "Le")]:
+            roles = value_roles(sb, rv[2]) | value_roles(sb, rv[3])
+            if any("max_datagram_frame_size" in r for r in roles):
+                adm.append(sorted(roles))
+        cond_a = any(any("encoding_size" in r for r in roles) for roles in adm)
+        # (B) is the with-length form chosen only under a comparison with the peer's limit?
+        with_len = []
+        for d in call_blocks(lb, r"Package<.*>>::dump$|io::Package::dump$"):
+            t = lb.term(d)
+            for pl in deep_places(lb, t["args"][0], 6):
+                for og in lb.trace_local(pl[0]):
+                    if og[0] == "call" and callee(og[2]).endswith("DatagramFrame::new") and og[2]["args"] and const_int(og[2]["args"][0]) == 1:
+                        with_len.append(d)
+        with_len = sorted(set(with_len))
+        limit_cmp = []
+        for (i, j, p, rv, line) in lb.assigns():
+            if rv[0] == "bin" and rv[1] in ("Gt", "Ge", "Lt", "Le") and len(p) == 1:
+                roles = value_roles(lb, rv[2]) | value_roles(lb, rv[3])
+                if any(re.search(r"field:\w*Writer\.max", r) for r in roles):
+                    for sbk in lb.live_blocks():
+                        tt = lb.term(sbk)
+                        if tt["t"] == "switch" and op_place(tt["on"]) == p:
+                            limit_cmp.append(sbk)
+        cond_b = bool(with_len) and all(any(lb.dominates(c, d) and c != d for c in limit_cmp) for d in with_len)
+        ctx.floor("R5", "with-length dump sites in the loader", len(with_len), 1)
+        ctx.ob("R5", "%s|an admitted datagram is never encoded larger than the peer's limit" % lb.short, cond_a or cond_b, lb.where(),
+               "admission comparisons %s (measure an encoded size: %s); with-length dumps at %s, comparisons with the peer's limit at %s "
+               "(every with-length dump guarded: %s) — admission bounds only the shortest form (1 + len), so unless the loader "
+               "checks the limit before adding the length varint an admitted datagram leaves as a frame of limit+1/+2 bytes and "
+               "the peer answers PROTOCOL_VIOLATION" % (adm, cond_a, with_len, limit_cmp, cond_b))
     ctx.note("R3/R4: the sender admits 1 + len <= limit but may then encode a length varint; the receiver measures "
              "encoding_size() + len: boundary sizes accepted by the sender can be rejected by an identical peer (recorded as a note)")
